@@ -33,6 +33,21 @@ SEEDS = [
 ]
 
 NEAR_VALID = {
+    'bank_overflow': 'bank99999999999 char x;\nvoid main() { x = 1; }',
+    'bank_overflow_fn': 'bank99999999999 void g() { X = 1; }\nvoid main() { g(); }',
+    'neg_int_min': 'const char x = -(1<<31);\nvoid main() { X = x; }',
+    'neg_int_min2': 'const char t[1] = {-(-2147483647 - 1)};\nvoid main() { X = t[0]; }',
+    'array_negative': 'void main() { short a[-1]; }',
+    'array_zero': 'char a[0]; void main() { X = 1; }',
+    'array_huge': 'char a[2000000000]; void main() { X = 1; }',
+    'macro_dup_param': '#define F(x,x) x\nvoid main() { X = F(1,2); }',
+    'macro_blank_param': '#define f(a , b) a+b\nvoid main() { X = f(1,2); }',
+    'macro_blank_param2': '#define f( a,b ) a+b\nvoid main() { X = f(1,2); }',
+    'ptr_offset_overflow': 'const char *ptr=""; void main() { X = (ptr >> 8) + 8388608; }',
+    'asm_negative_size': 'void main() { do { asm("nop",-1); asm("nop",-1); } while (X); }',
+    'asm_huge_size': 'void main() { do { asm("nop",2000000000); asm("nop",2000000000); } while (X); }',
+    'long_line_multibyte': 'char c; void main() { ' + 'c = 1; ' * 33 + "c = '\u00e9\u00e9\u00e9'; }",
+    'long_line_multibyte2': 'char c; void main() { ' + 'c = 1;  ' * 31 + " c = c; /* \u20ac\u20ac\u20ac\u20ac */ c = 2; }",
     'macro_doubling': '#define A A A\nchar A;\n',
     'macro_doubling_indirect': '#define A B B\n#define B A A\nchar x; A\n',
     'macro_doubling_call': '#define F(x) F(x) F(x)\nchar c; F(1)\n',
@@ -141,6 +156,16 @@ NEAR_VALID = {
 }
 
 OPTION_SETS = [['-O0'], ['-O1'], ['-O3', '--insert-code'], ['-O1', '-W', 'all'], ['-O1', '--fsigned_char'], ['-O1', '-D', 'N=1', '-D', 'FOO']]
+
+
+# logical operators with a constant operand, in every context that evaluates a condition or a truth value
+_LC = ['i && 1', 'i && 0', '1 && i', '0 && i', 'i || 1', 'i || 0', '1 || i', '0 || i', '!(i && 1)', '!!(i && K)', '(i && 1) && j', '(i || 0) || j',
+       'i && sizeof(short)', '!(i || 0)', '(i && 1) == 1', 'i && j && 1', '1 && i && j', 'i == 1 && 1', '!i && 1', 'i && !0']
+_LCTX = ['if (%s) X = 1;', 'if (%s) X = 1; else X = 2;', 'while (%s) { i--; }', 'do { i--; } while (%s);', 'for (i = 3; %s; i--) X++;',
+         'Y = (%s) ? 3 : 4;', 'X = %s;', 'X = !(%s);', 'j = ((%s) ? i : j) + 1;', 'if (!(%s)) X = 1;']
+for _a, _c in enumerate(_LC):
+    for _b, _x in enumerate(_LCTX):
+        NEAR_VALID['logic_const_%d_%d' % (_a, _b)] = 'const char K = 1; char i, j; void main() { %s }' % (_x % _c)
 
 
 def stress_program(rng):
